@@ -97,6 +97,9 @@ func mirrorCheck(prop string, props string, rule string) func(c *vx.Ctx) {
 		}
 		exploreDeviations(c, props, maxDev, st, each)
 		exploreBFS(c, props, seeds, depth, alphabet("core"), st, each)
+		if prop == "C01" || prop == "C05" || prop == "C09" || prop == "ALLA" {
+			exploreRaces(c, props)
+		}
 		c.Assume("testing/synctest quiescence: between two harness events the mirror runs until every goroutine is blocked")
 		c.Assume("tmconsensustest.SimpleSignatureScheme sign bytes (checked by C15) and crypto/ed25519 are the ground truth for signature validity")
 		c.Assume("4 validators, one Byzantine (<1/3 power); honest validators precommit only the honest block or nil")
@@ -108,7 +111,16 @@ const ruleCommon = "executions = benign 40-event script over 4 heights (validato
 func init() {
 	registry.Checks["ALLA"] = mirrorCheck("ALLA", allProps, ruleCommon)
 	registry.Checks["C01"] = mirrorCheck("C01", "C01", ruleCommon+"every commit event (committing view change, committed-header store write, committed header handed to the state machine, accepted replay) is certified by independently verifying the precommit signatures the node holds against the chain-prescribed validator set; non-trivial = execution that admitted a vote or committed a header, distinct by final canonical state")
-	registry.Checks["C04"] = mirrorCheck("C04", "C04", ruleCommon+"after every event: committed hashes never change, heights contiguous from the initial height, hash links, stored and in-memory positions never regress, voting = committing+1; non-trivial as C01")
+	registry.Checks["C04"] = func(c *vx.Ctx) {
+		crashEnum(c, []string{"C04"})
+		c04base(c)
+	}
+}
+
+var c04base func(c *vx.Ctx)
+
+func init() {
+	c04base = mirrorCheck("C04", "C04", ruleCommon+"after every event: committed hashes never change, heights contiguous from the initial height, hash links, stored and in-memory positions never regress, voting = committing+1; non-trivial as C01")
 	registry.Checks["C05"] = mirrorCheck("C05", "C05", ruleCommon+"after every event every signature reachable from views, gossip updates, state-machine views, round store and header store is re-verified with crypto/ed25519 against the sign bytes of the kind/height/round/hash it is filed under; all-invalid messages must leave the full observable snapshot unchanged and must not be Accepted; non-trivial as C01")
 	c06rest := nodeCheck("C06", "C06", ruleNode+ruleCommon+"C06: (a) the real VoteSummary on ALL assignments of n<=4 (thorough 5) validators x power vectors over {1,2,3,1e6} x every validator signing any subset of {nil,A,B}, compared with an order-independent recomputation; (b) every vote summary seen in any explored execution is recomputed from the signer bitsets, every voting-round change and every delay-timer start must be justified by distinct validators; non-trivial as C01", true)
 	registry.Checks["C06"] = func(c *vx.Ctx) {
@@ -151,6 +163,9 @@ func nodeCheck(prop string, props string, rule string, withMirror bool) func(c *
 			}
 			exploreDeviations(c, props, mdev, st, each)
 			exploreBFS(c, props, []int{0, 7, 16, 22}, mdepth, alphabet("core"), st, each)
+			if prop == "C09" {
+				exploreRaces(c, props)
+			}
 		}
 		c.Assume("testing/synctest quiescence; one environment event at a time")
 		c.Assume("4 validators, one Byzantine (<1/3 power); honest validators precommit only the honest block or nil")
@@ -213,5 +228,15 @@ func init() {
 	registry.Checks["CTOR"] = func(c *vx.Ctx) {
 		c.Rule = "constructor configurations"
 		exploreCtor(c, 2)
+	}
+}
+
+func init() {
+	registry.Checks["RACE"] = func(c *vx.Ctx) {
+		c.Rule = "debug: concurrent callers"
+		exploreRaces(c, "C01,C04,C05,C06,C07,C09,C11")
+		for _, s := range c.SamplesForDebug() {
+			fmt.Println(s)
+		}
 	}
 }
